@@ -28,8 +28,8 @@ type wsGraph struct {
 	p     *Program
 	ws    map[*ssa.Function]bool // workspace source functions (p.Funcs)
 	succ  map[*ssa.Function][]*ssa.Function
-	impls map[string][]*ssa.Function // interface-method key -> implementations by workspace types
-	types []types.Type               // workspace named types T and *T (non-generic + instantiated runtime types)
+	impls map[string][]*ssa.Function        // interface-method key -> implementations by workspace types
+	types []types.Type                      // workspace named types T and *T (non-generic + instantiated runtime types)
 	calls map[*ssa.Function][]*ssa.Function // call edges only (static, CHA invoke, func values by signature)
 	taken []*ssa.Function                   // product functions whose address is taken (closures, method values, callbacks)
 }
